@@ -10,6 +10,8 @@ import OrasModel.Driver.Tr
 import OrasModel.Driver.Rt
 import OrasModel.Driver.Pk
 import OrasModel.Driver.Cd
+import OrasModel.Driver.Au
+import OrasModel.Driver.Sc
 open Oras.Driver
 
 structure DState where
@@ -19,6 +21,7 @@ structure DState where
   fr : Fr.St := {}
   o : O.St := {}
   cd : Cd.St := {}
+  au : Au.St := {}
 
 def answer (r : Option (α × String × String)) (st : DState) (upd : α → DState) : DState × String :=
   match r with
@@ -46,6 +49,9 @@ def handle (st : DState) (line : String) : DState × String :=
   | "pk" :: rest => (match Pk.step rest with
       | some (m, s) => (st, s!"m={m} s={s}")
       | none => (st, "bad-op"))
+  | "sc" :: rest => (match Sc.step rest with
+      | some (m, s) => (st, s!"m={m} s={s}")
+      | none => (st, "bad-op"))
   | "ref" :: rest => (match R.step rest with
       | some (m, s) => (st, s!"m={m} s={s}")
       | none => (st, "bad-op"))
@@ -58,6 +64,7 @@ def handle (st : DState) (line : String) : DState × String :=
           ({ st with o := o' }, s!"m={m} s={s}{w}")
         | none => (st, "bad-op"))
   | "cd" :: rest => answer (Cd.step st.cd rest) st (fun c => { st with cd := c })
+  | "au" :: rest => answer (Au.step st.au rest) st (fun c => { st with au := c })
   | "v" :: rest => answer (V.step st.v rest) st (fun v => { st with v := v })
   | _ => (st, "bad-op")
 
